@@ -107,6 +107,14 @@ def decide(test, facts, model=None, hook=None):
                 if all(v is not None for v in vals):
                     return (ls in vals) if isinstance(op, ast.In) else (ls not in vals)
             raise Unknown(src)
+    if isinstance(test, (ast.Name, ast.Attribute)):
+        # truthiness of a value: None is false, a number is false exactly when it is zero
+        k = _key(test)
+        if facts.nulls.get(k) is True:
+            return False
+        if k in facts.nulls and k in facts.zeros:
+            return not facts.zeros[k]
+        raise Unknown(src)
     if isinstance(test, ast.Call) and isinstance(test.func, ast.Name) and test.func.id == "isinstance" and len(test.args) == 2:
         k = _key(test.args[0])
         if k in facts.types:
